@@ -22,12 +22,28 @@ FAMILY_VARIANTS = {
 }
 
 
+# back11 accepts a subset of the declarations (no sm-internal tables, no const events through chain rows, no
+# exit-point rows with action+guard): the families it compiles -- "back11 where it accepts the same declarations"
+B11_FAMS = ["conflict_flat", "nest_inactive", "queue_flat", "queue_nested", "defer_basic", "defer_action", "completion_chain",
+            "blocking", "flags", "storage", "fork_entry", "history_none", "history_always", "history_shallow", "serial_nested",
+            "fe_player", "fe_conflict"]
+
+
 def variants_of(family):
-    return FAMILY_VARIANTS.get(family, ALLV)
+    v = list(FAMILY_VARIANTS.get(family, ALLV))
+    if family in B11_FAMS and "B11" not in v:
+        v.append("B11")
+    return v
+
+
+def with_b11(family, variants):
+    if variants is ALLV and family in B11_FAMS:
+        return ALLV + ["B11"]
+    return variants
 
 
 def job(family, profile, quick, thorough, variants=None, mode="lockstep", san="", shards=4):
-    return {"family": family, "variants": variants or variants_of(family), "profile": profile, "quick": quick,
+    return {"family": family, "variants": with_b11(family, variants) if variants else variants_of(family), "profile": profile, "quick": quick,
             "thorough": thorough, "san": san, "shards": shards, "mode": mode}
 
 
